@@ -266,7 +266,7 @@ func scenario(k int) {
 	spec := dl.GenSpec(r, k, "c01")
 	id := fmt.Sprintf("c01-%d", k)
 	run.CaseStart(id + " " + spec.Describe())
-	defer run.CaseEnd(id + " " + spec.Describe())
+	defer run.CaseEndDeferred(id + " " + spec.Describe())
 	dir := fmt.Sprintf("%s/s%d", run.Work, k)
 	os.MkdirAll(dir, 0o755)
 	defer os.RemoveAll(dir)
